@@ -24,3 +24,9 @@ Definition gstrf_info (parts : list (list Z)) : Z := combine_info (map thread_in
    (or fact = FACTORED), B is scaled before the factorization when equilibrated and never unscaled *)
 Definition gssv_solves (info : Z) : bool := info =? 0.
 Definition min_nonzero (l : list Z) : Z := fold_left combine_step l 0.
+
+(* p?gstrf_factor_snode: the columns of a relaxed supernode are factored in ascending order and the routine returns the
+   FIRST nonzero info:   info = pivotL(...); if ( info ) if ( singular == 0 ) singular = info;   ...   return singular  *)
+Definition snode_step (singular info : Z) : Z :=
+  if negb (info =? 0) && (singular =? 0) then info else singular.
+Definition snode_info (infos : list Z) : Z := fold_left snode_step infos 0.
